@@ -44,7 +44,8 @@
 (*   HistoryOK  the ring buffer: slot i mod m holds the pair of the latest *)
 (*              non-skipped iteration congruent to i, never a later or a   *)
 (*              misaligned one; two_loops reads exactly the window         *)
-(*              max(it,m)-m .. it-1                                        *)
+(*              max(it,m)-m .. it-1 (WindowOK) and takes its initial       *)
+(*              scaling from slot (it-1) mod m (ScaleOK)                   *)
 (*   AtDone     the loop ends because of convergence or an exhausted       *)
 (*              budget; f_x is still NaN when no iteration was made        *)
 (* What it does NOT establish: Reduced.  How far the gradient drops is a   *)
@@ -78,12 +79,13 @@ CONSTANTS MaxIter,    \* LBFGS.max_iter
           Convex,     \* (E1)
           RedBits
 
+NoScale == 0 - 2        \* two_loops at iteration 0: s = -q, no initial scaling
 Inf == FTop + 1
 NaNf == 0 - 1          \* state.x_f before the first iteration (T::nan())
 
-VARIABLES pc, it, cur, xf, fp, g, conv, cnt, slots, negs, skipped,
+VARIABLES pc, it, cur, xf, fp, g, conv, cnt, slots, negs, skipped, scaleTag,
           sign, a, lsn, infn, t, moved, st, ok
-vars == <<pc, it, cur, xf, fp, g, conv, cnt, slots, negs, skipped,
+vars == <<pc, it, cur, xf, fp, g, conv, cnt, slots, negs, skipped, scaleTag,
           sign, a, lsn, infn, t, moved, st, ok>>
 
 Min(x, y) == IF x < y THEN x ELSE y
@@ -111,7 +113,7 @@ Init ==
     /\ g \in 0..GTop
     /\ conv = FALSE /\ cnt = 0
     /\ slots = [i \in 0..(Hist - 1) |-> 0 - 1]   \* -1: the initial clones of x0 with rho = 0
-    /\ negs = {} /\ skipped = {}
+    /\ negs = {} /\ skipped = {} /\ scaleTag = NoScale
     /\ sign = 0 /\ a = 0 /\ lsn = 0 /\ infn = 0 /\ t = NaNf /\ moved = FALSE
     /\ st = Idle /\ ok = TRUE
 
@@ -122,7 +124,7 @@ Start ==
        IN  ok' = (ok /\ G_Start(st, e)) /\ st' = E_Start(st, e)
     /\ conv' = (g < AtolLv)
     /\ pc' = "Loop"
-    /\ UNCHANGED <<it, cur, xf, fp, g, cnt, slots, negs, skipped, sign, a, lsn, infn, t, moved>>
+    /\ UNCHANGED <<it, cur, xf, fp, g, cnt, slots, negs, skipped, scaleTag, sign, a, lsn, infn, t, moved>>
 
 (* while !converged && iteration < max_iter *)
 LoopTest ==
@@ -132,7 +134,7 @@ LoopTest ==
        ELSE /\ pc' = "Done"
             /\ LET e == [status |-> "ok", iters |-> it, retFFin |-> TRUE, retFRk |-> cur, retGEx |-> g]
                IN  ok' = (ok /\ G_Stop(st, e, RedBits)) /\ UNCHANGED st
-    /\ UNCHANGED <<it, cur, xf, fp, g, conv, cnt, slots, negs, skipped, sign, a, lsn, infn, t, moved>>
+    /\ UNCHANGED <<it, cur, xf, fp, g, conv, cnt, slots, negs, skipped, scaleTag, sign, a, lsn, infn, t, moved>>
 
 (* update_state, first half: two_loops over the window, x_f_prev = f(x), df0 = <g, s> *)
 TwoLoops ==
@@ -141,6 +143,9 @@ TwoLoops ==
     /\ sign' \in IF Window \cap negs = {}
                  THEN (IF g = 0 THEN {0} ELSE {0 - 1})       \* positive definite two-loop matrix
                  ELSE {0 - 1, 0, 1}
+    (* `if state.iteration > 0 { scaling = dx.dg / dg.dg of slot (upper-1) mod m }`: the  *)
+    (* slot is read whether or not iteration upper-1 actually stored a pair               *)
+    /\ scaleTag' = IF it > 0 THEN slots[(it - 1) % Hist] ELSE NoScale
     /\ a' = 0 /\ lsn' = 0 /\ infn' = 0
     /\ pc' = "LsFirst"
     /\ UNCHANGED <<it, cur, xf, g, conv, cnt, slots, negs, skipped, t, moved, st, ok>>
@@ -150,7 +155,7 @@ LsFirst ==
     /\ pc = "LsFirst"
     /\ t' \in Trials(a)
     /\ pc' = "LsInf"
-    /\ UNCHANGED <<it, cur, xf, fp, g, conv, cnt, slots, negs, skipped, sign, a, lsn, infn, moved, st, ok>>
+    /\ UNCHANGED <<it, cur, xf, fp, g, conv, cnt, slots, negs, skipped, scaleTag, sign, a, lsn, infn, moved, st, ok>>
 
 (* while !fx1.is_finite() && iterfinite < max_infinity_iterations { halve } *)
 LsInf ==
@@ -161,7 +166,7 @@ LsInf ==
             /\ t' \in Trials(a')
             /\ pc' = "LsInf"
        ELSE pc' = "LsArmijo" /\ UNCHANGED <<infn, a, t>>
-    /\ UNCHANGED <<it, cur, xf, fp, g, conv, cnt, slots, negs, skipped, sign, lsn, moved, st, ok>>
+    /\ UNCHANGED <<it, cur, xf, fp, g, conv, cnt, slots, negs, skipped, scaleTag, sign, lsn, moved, st, ok>>
 
 (* while fx1 > f0 + c1*a2*df0 { if iteration > max_iterations panic; shrink; fx1 = f(a2) } *)
 LsArmijo ==
@@ -175,7 +180,7 @@ LsArmijo ==
                     /\ lsn' = lsn + 1
                     /\ pc' = "LsArmijo"
           ELSE pc' = "Step" /\ UNCHANGED <<a, t, lsn>>
-    /\ UNCHANGED <<it, cur, xf, fp, g, conv, cnt, slots, negs, skipped, sign, infn, moved, st, ok>>
+    /\ UNCHANGED <<it, cur, xf, fp, g, conv, cnt, slots, negs, skipped, scaleTag, sign, infn, moved, st, ok>>
 
 (* update_state, second half: x += alpha*s; x_f = f(x); df(x).  The gradient call at a   *)
 (* NEW point is the Iter event of the protocol (a repeated point is not a new iterate).  *)
@@ -189,7 +194,7 @@ Step ==
             IN  ok' = (ok /\ G_Iter(st, e)) /\ st' = E_Iter(st, e)
        ELSE UNCHANGED <<st, ok>>
     /\ pc' = "Assess"
-    /\ UNCHANGED <<it, fp, conv, cnt, slots, negs, skipped, sign, a, lsn, infn, t>>
+    /\ UNCHANGED <<it, fp, conv, cnt, slots, negs, skipped, scaleTag, sign, a, lsn, infn, t>>
 
 (* assess_convergence with the default tolerances x_atol = x_rtol = f_abstol = f_reltol = 0 *)
 Assess ==
@@ -199,7 +204,7 @@ Assess ==
            /\ conv' = ((g <= AtolLv) \/ ~moved \/ c2 > SuccFTol)
     /\ pc' = IF conv' THEN "Next" ELSE "Hessian"
     /\ skipped' = IF conv' THEN skipped \cup {it} ELSE skipped   \* `if !converged { update_hessian }`
-    /\ UNCHANGED <<it, cur, xf, fp, g, slots, negs, sign, a, lsn, infn, t, moved, st, ok>>
+    /\ UNCHANGED <<it, cur, xf, fp, g, slots, negs, scaleTag, sign, a, lsn, infn, t, moved, st, ok>>
 
 (* update_hessian: rho = 1/(dx.dg); stored unless infinite -- whatever its sign *)
 Hessian ==
@@ -211,13 +216,13 @@ Hessian ==
                /\ negs' = (negs \ {slots[it % Hist]}) \cup (IF c = "neg" THEN {it} ELSE {})
                /\ UNCHANGED skipped
     /\ pc' = "Next"
-    /\ UNCHANGED <<it, cur, xf, fp, g, conv, cnt, sign, a, lsn, infn, t, moved, st, ok>>
+    /\ UNCHANGED <<it, cur, xf, fp, g, conv, cnt, scaleTag, sign, a, lsn, infn, t, moved, st, ok>>
 
 NextIter ==
     /\ pc = "Next"
     /\ it' = it + 1
     /\ pc' = "Loop"
-    /\ UNCHANGED <<cur, xf, fp, g, conv, cnt, slots, negs, skipped, sign, a, lsn, infn, t, moved, st, ok>>
+    /\ UNCHANGED <<cur, xf, fp, g, conv, cnt, slots, negs, skipped, scaleTag, sign, a, lsn, infn, t, moved, st, ok>>
 
 Next == Start \/ LoopTest \/ TwoLoops \/ LsFirst \/ LsInf \/ LsArmijo \/ Step \/ Assess \/ Hessian \/ NextIter
 Spec == Init /\ [][Next]_vars
@@ -248,6 +253,19 @@ HistoryOK ==
        IN  slots[s] = Latest(top)
 WindowOK ==       \* two_loops reads min(it, Hist) slots, all aligned with the indices it means
     pc = "LsFirst" => \A i \in Lower..(it - 1) : slots[i % Hist] = Latest(i)
+(* The initial scaling is taken from the newest slot.  When iteration it-1 skipped its    *)
+(* update the slot still holds an older pair (or, tag -1, the initial clones of x0 with   *)
+(* rho = 0, for which the scaling is x0.x0 / x0.x0: 1, or 0/0 = NaN when x0 = 0).  With a *)
+(* strictly convex objective a skip needs dx.dg = 0 in floating point, which the         *)
+(* convergence test catches first (f unchanged), so the hazard lies outside C09; the     *)
+(* model records it as the reachable state  scaleTag = -1 /\ it > 0.                     *)
+ScaleOK == (pc = "LsFirst" /\ it > 0) => scaleTag = Latest(it - 1)
+(* FALSE in the model (LBFGSModel_stalescale.cfg, a negative test): after a skipped first  *)
+(* update two_loops scales by the never-written slot.  The real code does exactly this on  *)
+(* un-penalised logistic regression of separable data (x0 = 0, gradient saturated so that *)
+(* dg = 0 after a step that moved x): scaling = 0/0 and the fit comes back as NaN -- the   *)
+(* finding listed in known_findings/C09.json.                                             *)
+NeverScalesByInitialSlot == ~(pc = "LsFirst" /\ it > 0 /\ scaleTag = 0 - 1)
 
 AtDone == pc = "Done" =>
     /\ conv \/ it = MaxIter
